@@ -33,6 +33,8 @@ FOREIGN = {
         (("rules.C04", "table_rules", "facts"), "a correct entry is read to EOF without a checksum error, a wrong one never"),
     ],
     "C02": [
+        (("rules.C15", "write_rules", "ctx"), "an entry flagged encrypted carries the 12-byte encryption header, whichever opener started it"),
+        (("rules.C13", "sameparser_rules", "facts"), "an appended archive's old entries keep offsets relative to the stream: new_append applies the archive offset like the reader"),
         (ENTRYF, "the headers describe the entry that was asked for: method, flags, timestamp, large-file form come from the options"),
         (TS, "stored CRC/sizes describe the entry's own bytes: fresh accounting per entry over all call sequences"),
         (("rules.shared_zip64", "guard_rules", "ctx"), "a non-large entry that outgrows 4 GiB never yields a finished archive"),
@@ -45,6 +47,8 @@ FOREIGN = {
         (("rules.C19", "flag_decode_rules", "facts"), "names/comments are decoded by the flagged encoding"),
     ],
     "C04": [
+        (RREF, "a damaged/short entry that was refused is still refused (no saturating/defaulting replaces the refusal)"),
+        (("rules.C16", "open_rules", "facts"), "AES entries: the data length is the compressed size minus the overhead, checked"),
         (("rules.C03", "flagbits_rules", "facts"), "using_data_descriptor is bit 3 (streamed entries with a descriptor are refused, never mis-sized)"),
         (("rules.C10", "stack_rules", "facts"), "the streaming reader builds the same CRC-checked decoder stack"),
     ],
@@ -53,6 +57,7 @@ FOREIGN = {
         (("rules.C03", "dosmode_rules", "facts"), "permission bits derived from DOS attributes"),
     ],
     "C08": [
+        (("rules.C03", "sentinel_rules", "facts"), "foreign ZIP64 archives that mask the classic disk numbers are accepted"),
         (("rules.C10", "drain_rules", "facts"), "a streamed ZIP64 entry is bounded by its 64-bit size: the limit is taken after the local ZIP64 record was decoded"),
         (("rules.C01", "patchoff_rules", "ctx"), "the local ZIP64 record is written and back-patched in the order (uncompressed, compressed) at the offsets of the table"),
         (OPENERS, "the large_file request reaches the entry through every opener"),
@@ -66,6 +71,7 @@ FOREIGN = {
         (("rules.C04", "table_rules", "facts"), "contents are CRC-checked the same way"),
     ],
     "C13": [
+        (("rules.C03", "central_rules", "ctx"), "old entries are located through their own local headers (names re-encoded on re-emission do not shift them)"),
         (("rules.C01", "mode_rules", "ctx"), "re-emitted entries keep their external attributes: the shift is applied where the attribute word is built, not where it is written"),
         (WREF, "appending entries is refused only where it was"),
         (RREF, "an existing archive that opens for reading opens for append"),
@@ -86,6 +92,7 @@ FOREIGN = {
         (("rules.C18", "bits_rules", "facts"), "the copied timestamp re-packs to the same words"),
     ],
     "C15": [
+        (("rules.C04", "args_rules", "facts"), "the CRC exemption is the AE-2 predicate only: a wrong password that passes the check byte still fails the CRC"),
         (("rules.C03", "flagbits_rules", "facts"), "the encrypted flag and the data-descriptor flag (which selects the ZipCrypto check byte) are bits 0 and 3"),
         (TS, "an entry opened with keys gets the encrypting sink, and only that entry, for every call sequence"),
         (RREF, "the right password is refused nowhere new (entry length, method, flags ...)"),
@@ -93,17 +100,22 @@ FOREIGN = {
         (ENTRYF, "the encrypted flag is set exactly when keys were given"),
     ],
     "C17": [
+        (("rules.C02", "offs_rules", "ctx"), "the data start recorded at open is the observed stream position (not recomputed from lengths)"),
+        (("rules.shared_count", "exact_rule", "facts"), "central extra data is emitted with exact-length writes"),
         (TS, "bytes written in extra-data mode never reach the entry's CRC/size accounting, for every call sequence"),
         (("rules.shared_count", "count_rule", "facts"), "the writer accounts exactly the file-data bytes the sink accepted"),
         (WREF, "aligned / extra-data entries are refused exactly where the reviewed validation refuses them"),
         (OPENERS, "start_file_aligned / start_file_with_extra_data open the entry that was asked for"),
     ],
     "C18": [
+        (("rules.C15", "write_rules", "ctx"), "the encryption option changes only the keys (builder methods keep the caller's timestamp)"),
+        (("rules.C01", "patchoff_rules", "ctx"), "the local header's time/date words are written once, up front (raw copies are never patched)"),
         (OPENERS, "the caller's timestamp reaches the entry through every opener"),
         (ENTRYF, "... and is recorded as given, unconditionally"),
         (("rules.C13", "raw_rules", "facts"), "append re-writes parsed entries untouched"),
     ],
     "C16": [
+        (("rules.shared_zip64", "pair_rules", "ctx"), "AES entries with ZIP64 sizes: the two 64-bit values are consumed in APPNOTE order"),
         (("rules.C03", "flagbits_rules", "facts"), "the encrypted flag is bit 0"),
         (("rules.C15", "open_rules", "facts"), "no password => the password-required error for every encrypted entry, AES included"),
         (RREF, "the right password is refused nowhere new; tampering is refused everywhere it was"),
@@ -112,11 +124,15 @@ FOREIGN = {
         (("rules.C04", "table_rules", "facts"), "a short read is not the end of data: the checksum verdict is tied to Ok(0) of the inner reader only"),
     ],
     "C12": [
+        (("rules.C02", "seekabs_rules", "facts"), "extra-data entries started on a stream that has bytes behind the write position (append) land where the headers say"),
         (("rules.shared_count", "count_rule", "facts"), "a partially accepted write is accounted as exactly the accepted bytes: retrying the rest is legal use"),
     ],
     "C19": [
         (("rules.C01", "patchoff_rules", "ctx"), "the stored name bytes are not overwritten: the ZIP64 back-patch lands behind the name's BYTE length"),
         (("rules.shared_count", "exact_rule", "facts"), "name and comment bytes are read with exact-length primitives (a bare read() truncates them on a short read)"),
+    ],
+    "C11": [
+        (("rules.C15", "write_rules", "ctx"), "a failed flush of an encrypted entry leaves no half-finished encrypting writer behind (finish consumes it)"),
     ],
     "C20": [
         (("rules.C03", "central_rules", "ctx"), "opening an entry records its data start itself, on every path: what a handle reports never depends on what a clone did before"),
